@@ -22,6 +22,13 @@ func respFor(p interface{}, seq int32) interface{} {
 	return q.(pdu.Responsable).Resp()
 }
 
+// respStatus: the same response carrying a command_status (the peer refusing the request).
+func respStatus(p interface{}, seq int32, status uint32) interface{} {
+	r := respFor(p, seq)
+	pduHeader(r).CommandStatus = pdu.CommandStatus(status)
+	return r
+}
+
 // expectedFrame: the Marshal encoding of p with the given sequence number, or nil when Marshal refuses it.
 func expectedFrame(p interface{}, seq int32) []byte {
 	q := clonePDU(p)
